@@ -61,6 +61,9 @@ func init() {
 		checkBinaryActions(r, ga, "c15")
 		checkActionsDoNotRewrite(r, prog, "c15")
 		checkActionErrors(r, prog, "c15")
+		r.importing = "C01"
+		checkBindingModes(r, prog, ga, "c01") // "binding mode and names": each form of `as …` sets exactly the names of its mode
+		r.importing = ""
 		// (c) the actions build the prescribed nodes: selector path parts, operator constants, literal text
 		r.importing = "C07"
 		checkSelectorGrammar(r, ga, "c07")
@@ -1485,6 +1488,7 @@ func checkWhitespaceRule(r *Run, ga *GA) {
 		ok = !cs.Empty() && cs.Minus(ws).Empty() && cs.Has(' ')
 	}
 	r.Check("c16.layout-rule", "rule:"+best, ga.prog.pos(ga.tab.RulePos[rule]), ok, fmt.Sprintf("the layout rule %s (used optionally %d times) matches %s, expected a repetition of whitespace characters only", best, bn, cs))
+	checkBracketLayout(r, ga, best)
 	// every other place that tests for "whitespace" uses the same set (a terminator that forgets a whitespace
 	// character would make one layout of the same expression parse differently)
 	for _, rl := range ga.order {
@@ -1500,6 +1504,45 @@ func checkWhitespaceRule(r *Run, ga *GA) {
 			}
 		})
 	}
+}
+
+// checkBracketLayout: wherever a sequence opens a bracket and closes it again, layout is optional on the inside of both:
+// `( e )`, `{ e }`, `[ "k" ]` read like `(e)`, `{e}`, `["k"]`.
+func checkBracketLayout(r *Run, ga *GA, layout string) {
+	closer := map[string]string{"(": ")", "{": "}", "[": "]"}
+	isOptLayout := func(n *peg.Node) bool {
+		return n != nil && n.Kind == peg.Opt && len(n.Kids) == 1 && n.Kids[0].Kind == peg.RuleRef && n.Kids[0].Name == layout
+	}
+	n := 0
+	for _, rl := range ga.order {
+		rl.Walk(func(sq *peg.Node, path string) {
+			if sq.Kind != peg.Seq {
+				return
+			}
+			for i, k := range sq.Kids {
+				x := k
+				if x.Kind == peg.Labeled && len(x.Kids) == 1 {
+					x = x.Kids[0]
+				}
+				if x.Kind != peg.Lit || closer[x.Val] == "" {
+					continue
+				}
+				for j := len(sq.Kids) - 1; j > i; j-- {
+					y := sq.Kids[j]
+					if y.Kind != peg.Lit || y.Val != closer[x.Val] {
+						continue
+					}
+					n++
+					okO := i+1 < j && isOptLayout(sq.Kids[i+1])
+					okC := j-1 > i && isOptLayout(sq.Kids[j-1])
+					r.Check("c16.layout-rule", "brackets:"+path+":"+x.Val+y.Val, ga.posOf(sq), okO && okC,
+						fmt.Sprintf("layout must be optional after %q and before %q (after: %v, before: %v): the same expression written with blanks inside the brackets would not be read back", x.Val, y.Val, okO, okC))
+					break
+				}
+			}
+		})
+	}
+	r.Check("c16.layout-rule", "brackets:census", "grammar/grammar.go", n >= 3, fmt.Sprintf("info: %d bracketed sequences examined", n))
 }
 
 type valuePair struct{ nonNil, nilV bool }
